@@ -127,7 +127,7 @@ def tasks(tier):
     for inc in ('x.circom', './x.circom', 'sub/x.circom'):
         for libs in ('none', 'dir', 'file', 'dir+file'):
             ts.append({'part': 'add_include', 'inc': inc, 'libs': libs})
-    ts += [{'part': 'new', 'n': n} for n in (1, 2)]
+    ts += [{'part': 'new', 'n': n, 'libs': libs} for n in (1, 2) for libs in ('none', 'dir', 'file', 'dir+file')]
     return ts
 
 
@@ -233,18 +233,28 @@ def run_task(task):
 
         def entry(ex):
             paths = VecV([PathV('raw', ('cwd', '', 'in%d.circom' % i)) for i in range(n)])
+            libs = []
+            if 'dir' in task.get('libs', ''): libs.append(PathV('dir', ('libdir',)))
+            if 'file' in task.get('libs', ''): libs.append(PathV('raw', ('cwd', '', 'lib.circom')))
+            ex.notes['inputs'] = [p.ident for p in paths.items]; ex.notes['nlibfiles'] = sum(1 for l in libs if l.kind == 'raw')
             reports = VecV([])
-            st = ex.call_mir(fn, [SliceV(paths, 0, n), SliceV(VecV([]), 0, 0), Ref([reports], 0)])
+            st = ex.call_mir(fn, [SliceV(paths, 0, n), SliceV(VecV(libs), 0, len(libs)), Ref([reports], 0)])
             return st, reports
 
         def post(ex, res):
             st, reports = res
             stack = ir.get(st, 'stack').items
             nerr = len(reports.items)
-            ex.oblige(len(stack) + nerr == n, 'input-dropped', 'every .circom input is either pushed or reported (pushed %d, reported %d of %d)' % (len(stack), nerr, n))
             for p in stack: ex.oblige(pathof(p).kind == 'canon', 'canonical', 'inputs are pushed in canonical form')
+            canon_in = [canon_of(ex, i) for i in ex.notes['inputs']]
+            resolvable = [c for c in canon_in if not ex.decide(c < 0)]
+            # a library file that cannot be resolved is reported too; it is never an input
+            libs_failed = ex.notes['nlibfiles'] and ex.decide(canon_of(ex, ('cwd', '', 'lib.circom')) < 0)
+            ex.oblige(len(resolvable) + nerr == n + (1 if libs_failed else 0), 'input-dropped', 'every .circom input that cannot be read is reported (%d readable, %d reports, %d inputs)' % (len(resolvable), nerr, n))
+            ex.oblige(len(stack) == len(resolvable) and all(ex.decide(eq(pathof(p).ident, c)) is True or not is_sym(eq(pathof(p).ident, c)) and eq(pathof(p).ident, c) for p, c in zip(stack, resolvable)), 'stack-is-inputs',
+                      'the initial stack is exactly the readable named inputs (stack %d, readable inputs %d): nothing else is parsed unless it is included' % (len(stack), len(resolvable)))
             for k in range(NF):
-                named = simp(b_or(*[eq(pathof(p).ident, k) for p in stack]))
+                named = simp(b_or(*[eq(c, k) for c in resolvable]))
                 got = ex.call_mir(isu, [Ref([st], 0), Ref([PathV('canon', k)], 0)])
                 got = ex.decide(got) if is_sym(got) else got
                 ex.oblige(simp(eq(zbool(named) if is_sym(named) else named, got)) if is_sym(named) else named == got, 'user-input', 'is_user_input(f%d) iff f%d is the canonical path of a named input' % (k, k))
@@ -272,6 +282,13 @@ def confirm(task, v):
             r = subprocess.run([realbin.binary(), 'main.circom', '-L', 'lib'], cwd=d, env=env, capture_output=True, text=True, timeout=60)
             reads = [l for l in (r.stdout + r.stderr).split('\n') if 'reading file' in l and task['inc'].split('/')[-1] in l]
             return len(reads) != 1, {'reads of %s' % task['inc']: len(reads)}, {'reads': 1}
+        if part == 'new' and v is not None and v['kind'] in ('stack-is-inputs', 'user-input') and 'file' in task.get('libs', ''):
+            # a library given as a file whose definitions would produce findings; the named file only includes it
+            os.makedirs(os.path.join(d, 'libs'))
+            open(os.path.join(d, 'libs', 'bits.circom'), 'w').write('pragma circom 2.0.0;\ntemplate IsNonZero() { signal input a; signal output b; var unused = 3; b <-- a >> 1; }\n')
+            open(os.path.join(d, 'main.circom'), 'w').write('pragma circom 2.0.0;\ninclude "bits.circom";\ntemplate M() { signal input a; signal output b; component c = IsNonZero(); c.a <== a; b <== c.b; }\n')
+            rc, out = realbin.run(['main.circom', '-L', 'libs/bits.circom'], d)
+            return rc != 0 or 'bits.circom' in out, {'exit': rc, 'mentions bits.circom': 'bits.circom' in out, 'out': out[-200:]}, {'exit': 0, 'findings in the library file': False}
         if part == 'new':
             rc, out = realbin.run([os.path.join(d, 'missing.circom')], d)
             return rc != 1 or 'error' not in out, {'exit': rc, 'out': out[-200:]}, {'exit': 1, 'an error': True}
